@@ -393,7 +393,9 @@ def _construct_dsdl_definitions_from_files(
     valid_roots: list[Path],
 ) -> SortedFileList[ReadableDSDLFile]:
     """ """
-    output = set()  # type: set[ReadableDSDLFile]
+    # One definition per file. The definitions compare equal if they share the name and version, so they are
+    # indexed by path here: a requested file shall not be dropped because another file spells the same name and version.
+    output = {}  # type: dict[Path, ReadableDSDLFile]
     for fp in dsdl_files:
         if fp.suffix == DSDL_FILE_SUFFIX_LEGACY:
             _logger.warning(
@@ -402,9 +404,10 @@ def _construct_dsdl_definitions_from_files(
                 DSDL_FILE_SUFFIX,
                 fp,
             )
-        output.add(_dsdl_definition.DSDLDefinition.from_first_in(fp, list(valid_roots)))
+        definition = _dsdl_definition.DSDLDefinition.from_first_in(fp, list(valid_roots))
+        output.setdefault(definition.file_path, definition)
 
-    return dsdl_file_sort(output)
+    return dsdl_file_sort(output.values())
 
 
 def _construct_dsdl_definitions_from_namespaces(
